@@ -890,10 +890,20 @@ def check_values(ctx: Ctx, n: int) -> None:
 def check_flags(ctx: Ctx) -> None:
     flags = run_model([[5]], driver="c14")[0]
     code = [1 if "__iadd__" in TagList.__dict__ else 0,
-            1 if int in _is_tag_child_tuple() else 0]
+            1 if _accepts_int() else 0]
     ctx.extra["repair_flags"] = {"model [iadd_delegates_to_extend, child_tuple_has_int]": flags,
                                  "code [TagList defines __iadd__, int in is_tag_child tuple]": code}
     ctx.obligation("model repair flags (Model/TagListOps.v) describe the code in /repo", flags == code)
+
+
+def _accepts_int() -> bool:
+    """whether is_tag_child accepts a plain int: decided by BEHAVIOUR (how the source spells its
+    isinstance test -- a literal tuple, a named constant -- does not matter); falls back to the
+    source reading only if the call itself fails"""
+    try:
+        return bool(_core.is_tag_child(5)) and bool(_core.is_tag_child(0))
+    except Exception:
+        return int in _is_tag_child_tuple()
 
 
 def _is_tag_child_tuple() -> tuple:
